@@ -7,7 +7,8 @@ DIR=$(cd "$(dirname "$0")/.." && pwd)
 OUTF=$DIR/seeded/RESULTS.tsv
 PFX=${1:-}
 touch $OUTF
-for d in $DIR/seeded/${PFX}*C[0-9][0-9]-*; do
+for d in $DIR/seeded/${PFX}*; do
+  [ -f "$d/patch.diff" ] || continue
   name=$(basename $d); base=${name#R2-}; base=${base#R3-}; own=${base%%-*}
   grep -v "^$name	" $OUTF > $OUTF.tmp; mv $OUTF.tmp $OUTF
   rel=$(grep "^$name " $DIR/tools/seeded_related.txt | cut -d' ' -f2-)
